@@ -36,6 +36,12 @@ def _rebuild_checks(ctx, p, what):
         # the raw structured view with its fields listed in another order (numpy keeps the offsets): same polynomial
         routes["values[fields reversed]+names"] = lambda: numpoly.polynomial(p.values[[str(k) for k in p.keys][::-1]], names=p.names)
         routes["values[fields rotated]+names"] = lambda: numpoly.polynomial(p.values[[str(k) for k in p.keys][1:] + [str(p.keys[0])]], names=p.names)
+    # an explicit allocation (a storage hint: anything from the number of stored terms upwards) never changes the polynomial
+    n = len(p.keys)
+    routes["attributes allocation=terms+1"] = lambda: numpoly.polynomial_from_attributes(p.exponents, p.coefficients, p.names, allocation=n + 1)
+    routes["values+names allocation=2*terms-1"] = lambda: numpoly.polynomial(p.values, names=p.names, allocation=max(n, 2 * n - 1))
+    routes["polynomial(p) allocation=terms"] = lambda: numpoly.polynomial(p, allocation=n)
+    routes["todict allocation=3*terms+1"] = lambda: numpoly.polynomial(p.todict(), names=p.names, allocation=3 * n + 1)
     if names == tuple("q%d" % i for i in range(len(names))):
         routes["todict (no names)"] = lambda: numpoly.polynomial(p.todict())
     for rname, route in routes.items():
@@ -134,6 +140,25 @@ def body_triple(ctx: H.BaseCtx):
         check_invariants(ctx, q, "clean_attributes(result)")
     except Exception as e:
         ctx.unexpected_exception(e, "clean_attributes")
+    # the constructed polynomial written into afterwards (what out= / copyto / item assignment do): a term whose coefficients have
+    # all become zero is dropped by the next cleaning like any other, together with the names only it used
+    nonconst = [i for i, e in enumerate(p.exponents.tolist()) if any(e)]
+    if nonconst:
+        try:
+            i = nonconst[-1]
+            p.values[str(p.keys[i])] = 0
+            rows2 = [tuple(int(v) for v in r) for r in p.exponents.tolist()]
+            keep2 = [r for r, a in zip(rows2, p.coefficients) if not any(r) or col_nonzero(a)] or [tuple([0] * len(p.names))]
+            names2 = [n for j, n in enumerate(p.names) if any(r[j] for r in keep2)] or [p.names[0]]
+            want2 = sorted(tuple(r[list(p.names).index(n)] for n in names2) for r in keep2)
+            mp2 = M.to_model(p)
+            q = numpoly.clean_attributes(p, retain_coefficients=False, retain_names=False)
+            ctx.expect_model(q, mp2, "clean_attributes(result written into)")
+            got2 = sorted(tuple(int(v) for v in r) for r in q.exponents.tolist())
+            if tuple(q.names) != tuple(names2) or got2 != want2:
+                ctx.fail("terms", "after zeroing term %s in place, clean_attributes keeps names %s rows %s, expected %s %s" % (rows2[i], tuple(q.names), got2, tuple(names2), want2))
+        except Exception as e:
+            ctx.unexpected_exception(e, "clean_attributes after an in-place write")
 
 
 def body(ctx):
